@@ -180,11 +180,12 @@ public:
     const auto C = -detail::sin_5(th2);
 
     const auto [dA_over_th, dB_over_th, dC_over_th] = [&]() -> std::array<Scalar, 3> {
-      if (th2 < Scalar(eps2)) {
+      if (th2 < Scalar(detail::tail_switch<Scalar>(7))) {
+        const Scalar th4 = th2 * th2;
         return {
-          -Scalar(1) / 60,
-          -Scalar(1) / 360,
-          Scalar(1) / 2520,
+          -Scalar(1) / 60 + th2 / 1260 - th4 / 60480,
+          -Scalar(1) / 360 + th2 / 10080 - th4 / 604800,
+          Scalar(1) / 2520 - th2 / 90720 + th4 / 6652800,
         };
       } else {
         const Scalar th  = sqrt(th2);
